@@ -32,7 +32,7 @@ type StressCase struct {
 	NAsync     int   `json:"n_async"`
 	AsyncSeq   bool  `json:"async_seq,omitempty"`
 	AsyncFirst bool  `json:"async_first,omitempty"` // the asynchronous handlers are subscribed before the synchronous ones
-	Spin       []int `json:"spin"` // busy iterations inside a synchronous handler (cyclic by event id)
+	Spin       []int `json:"spin"`                  // busy iterations inside a synchronous handler (cyclic by event id)
 	ASpin      []int `json:"a_spin"`
 	Procs      int   `json:"procs"`
 }
